@@ -53,7 +53,7 @@ def check(run):
     # large bimaps (hundreds of pairs: whatever a map or a Bimap does differently when big), read back in full only at chosen points:
     # fill, clone, clear / drain through every size, refill; both copies observed
     for N in ((129, 140, 300) if run.quick() else (64, 129, 140, 300, 600, 1100)):
-        for variant in ("clear", "drain"):
+        for variant in ("clear", "drain", "drainF", "drainR"):
             p = [dict(op="Reset", n="a", k=0, v=0, nk=N, nv=N)]
             perm = list(range(N))
             run.rng.shuffle(perm)
@@ -68,7 +68,7 @@ def check(run):
                 p.append(dict(op="Clear", n="b", k=0, v=0))
             else:
                 for i in range(N):
-                    op = "RemoveForward" if i % 2 else "RemoveReverse"
+                    op = {"drain": "RemoveForward" if i % 2 else "RemoveReverse", "drainF": "RemoveForward", "drainR": "RemoveReverse"}[variant]
                     p.append(dict(op=op, n="a", k=i + 1, v=11 + perm[i], q=(i % max(1, N // 4) != 0 and i < N - 2)))
                 p.append(dict(op="Add", n="a", k=2, v=12))
                 p.append(dict(op="Clear", n="b", k=0, v=0))
